@@ -663,6 +663,11 @@ def ite(c, a, b):
         return c
     if isinstance(a, Const) and isinstance(b, Const) and a.v is False and b.v is True:
         return not_(c)
+    # ite(c, c, b) = c or b ;  ite(c, a, c) = c and a   (the value forms of `x or y` / `x and y` used as conditions)
+    if a == c and _boolish(c) and _boolish(b):
+        return or_(c, b)
+    if b == c and _boolish(c) and _boolish(a):
+        return and_(c, a)
     # boolean alternatives: a conditional whose one arm is a truth constant is a conjunction / disjunction
     if isinstance(b, Const) and b.v is False and _boolish(a):
         return and_(c, a)
@@ -999,12 +1004,26 @@ def evaluate(t, env, memo=None):
         for x, c in t.terms:
             r += c * int(evaluate(x, env, memo))
     elif isinstance(t, Ite):
-        r = evaluate(t.a, env, memo) if evaluate(t.c, env, memo) else evaluate(t.b, env, memo)
+        cexc = t.c if isinstance(t.c, Sym) and t.c.kind == "exc" else None
+        if cexc is not None and env.get("__exc_as_try__") and cexc not in env:
+            # value of  try: <b>  except <look-up failure>: <a>   - the handler's alternative applies when computing the
+            # normal one fails the way a missing key / index does
+            try:
+                r = evaluate(t.b, env, dict(memo))
+            except (LookupError, TypeError, ValueError):
+                r = evaluate(t.a, env, memo)
+        else:
+            r = evaluate(t.a, env, memo) if evaluate(t.c, env, memo) else evaluate(t.b, env, memo)
     elif isinstance(t, Op):
         op = t.op
         hooks = env.get("__ops__")
         if hooks and op in hooks:
-            r = hooks[op](*[evaluate(a, env, memo) for a in t.args])
+            h_ = hooks[op]
+            if getattr(h_, "lazy", False):
+                r = h_(env, t)                   # the stub decides itself what to evaluate
+            else:
+                vals_ = [evaluate(a, env, memo) for a in t.args]
+                r = h_(env, *vals_) if getattr(h_, "wants_env", False) else h_(*vals_)
             memo[k] = r
             return r
         if op == "and":
